@@ -32,27 +32,27 @@ def target(dkey, tkind):
 
 GROUPS = {
     "lasso-family": dict(tkind="reg", data=["D63", "D35", "D63csc", "D63f32"],
-                         est=[dict(name="Lasso", kw=dict(alpha=0.1, tol=1e-8)),
-                              dict(name="ElasticNet", kw=dict(alpha=0.1, l1_ratio=0.5, tol=1e-8)),
-                              dict(name="WeightedLasso", kw=dict(alpha=0.1, tol=1e-8, weights="W"))],
+                         est=[dict(name="Lasso", kw=dict(alpha=0.1, tol=1e-6, max_iter=20, max_epochs=500)),
+                              dict(name="ElasticNet", kw=dict(alpha=0.1, l1_ratio=0.5, tol=1e-6, max_iter=20, max_epochs=500)),
+                              dict(name="WeightedLasso", kw=dict(alpha=0.1, tol=1e-6, max_iter=20, max_epochs=500, weights="W"))],
                          moves=[dict(alpha=0.02), dict(fit_intercept=False)], paths=True),
     "mcp-gle": dict(tkind="reg", data=["D63", "D35", "D44F"],
-                    est=[dict(name="Lasso", kw=dict(alpha=0.05, tol=1e-8)), dict(name="MCPRegression", kw=dict(alpha=0.05, gamma=3.0, tol=1e-8)),
-                         dict(name="GLE", kw=dict(datafit="Quadratic", penalty=dict(name="L1", alpha=0.05), solver=dict(name="AndersonCD", kw=dict(tol=1e-8))))],
+                    est=[dict(name="Lasso", kw=dict(alpha=0.05, tol=1e-6, max_iter=20, max_epochs=500)), dict(name="MCPRegression", kw=dict(alpha=0.05, gamma=3.0, tol=1e-6, max_iter=20, max_epochs=500)),
+                         dict(name="GLE", kw=dict(datafit="Quadratic", penalty=dict(name="L1", alpha=0.05), solver=dict(name="AndersonCD", kw=dict(tol=1e-6, max_iter=20, max_epochs=500))))],
                     moves=[dict(alpha=0.2)], paths=True),
     "classifiers": dict(tkind="clf", data=["D63", "D44F", "D63csc"],
-                        est=[dict(name="SparseLogisticRegression", kw=dict(alpha=0.05, tol=1e-8)), dict(name="LinearSVC", kw=dict(C=1.0, tol=1e-8)),
-                             dict(name="GLE", kw=dict(datafit="Logistic", penalty=dict(name="L1", alpha=0.05), solver=dict(name="AndersonCD", kw=dict(tol=1e-8))))],
+                        est=[dict(name="SparseLogisticRegression", kw=dict(alpha=0.05, tol=1e-6, max_epochs=50)), dict(name="LinearSVC", kw=dict(C=1.0, tol=1e-6, max_iter=20, max_epochs=500)),
+                             dict(name="GLE", kw=dict(datafit="Logistic", penalty=dict(name="L1", alpha=0.05), solver=dict(name="AndersonCD", kw=dict(tol=1e-6, max_iter=20, max_epochs=500))))],
                         moves=[dict(alpha=0.2), dict(C=0.1)], paths=False),
     "group": dict(tkind="reg", data=["D63", "D44F", "D63csc"],
-                  est=[dict(name="GroupLasso", kw=dict(groups=1, alpha=0.05, tol=1e-8)),
-                       dict(name="GroupLasso", kw=dict(groups="G", alpha=0.05, tol=1e-8, weights="GW"))],
+                  est=[dict(name="GroupLasso", kw=dict(groups=1, alpha=0.05, tol=1e-6, max_iter=50, max_epochs=100)),
+                       dict(name="GroupLasso", kw=dict(groups="G", alpha=0.05, tol=1e-6, max_iter=50, max_epochs=100, weights="GW"))],
                   moves=[dict(alpha=0.2)], paths=False),
     "multitask": dict(tkind="mixed", data=["D63", "D35"],
-                      est=[dict(name="MultiTaskLasso", kw=dict(alpha=0.05, tol=1e-8)), dict(name="Lasso", kw=dict(alpha=0.05, tol=1e-8))],
+                      est=[dict(name="MultiTaskLasso", kw=dict(alpha=0.05, tol=1e-6, max_iter=20, max_epochs=500)), dict(name="Lasso", kw=dict(alpha=0.05, tol=1e-6, max_iter=20, max_epochs=500))],
                       moves=[dict(alpha=0.2)], paths=True),
     "reweighted": dict(tkind="reg", data=["D63", "D35"],
-                       est=[dict(name="IRL1", kw=dict()), dict(name="IRL1", kw=dict())], moves=[], paths=False),
+                       est=[dict(name="IRL1", kw=dict()), dict(name="IRL1", kw=dict(n_reweights=2))], moves=[], paths=False),
     "sqrt-cox": dict(tkind="mixed2", data=["D63", "D44F"],
                      est=[dict(name="SqrtLasso", kw=dict(alpha=0.2, tol=1e-8)), dict(name="CoxEstimator", kw=dict(alpha=0.05, l1_ratio=0.7, tol=1e-8))],
                      moves=[dict(alpha=0.05), dict(tol=1e-12), dict(max_iter=1)], paths=False),
@@ -75,7 +75,7 @@ def make_est(spec, p):
         return skglm.GeneralizedLinearEstimator(datafit=build.datafit_raw(dict(name=kw["datafit"])), penalty=build.penalty_raw(kw["penalty"]),
                                                 solver=build.solver(kw["solver"]))
     if name == "IRL1":
-        return IterativeReweightedL1()
+        return IterativeReweightedL1(**kw)
     if name == "SqrtLasso":
         return SqrtLasso(**kw)
     return getattr(skglm, name)(**kw)
@@ -197,8 +197,8 @@ def play(gname, history):
             rec.update(status="exc", exc=type(e).__name__ + ": " + str(e)[:100])
         rec["inputs_untouched"] = before == snapshot_inputs(Xc, y, est)
         outcomes.append(rec)
-    canon = json.dumps([[str(k), json.dumps(e.get_params(deep=False), sort_keys=True, default=str), fitted_attrs(e)] for k, e in sorted(ests.items())],
-                       sort_keys=True, default=str)
+    canon = json.dumps([cur_kw, [[str(k), json.dumps(e.get_params(deep=False), sort_keys=True, default=str), fitted_attrs(e)]
+                                 for k, e in sorted(ests.items())]], sort_keys=True, default=str)
     return outcomes, canon
 
 
@@ -208,6 +208,7 @@ def result_key(gname, rec):
 
 def plan(tier, seed):
     tasks = [dict(op="bfs", group=g, weight=5) for g in GROUPS]
+    tasks += [dict(op="solver_bfs", solver=s_, weight=4) for s_ in SOLVER_REUSE]
     # references: one fresh worker process per single fit
     k = 0
     for g in GROUPS:
@@ -222,7 +223,91 @@ def plan(tier, seed):
     return tasks
 
 
+# ---- persistent *solver* objects and persistent user arrays (same X object across calls, possibly modified in place) ----
+
+SOLVER_REUSE = {
+    "AndersonCD": dict(kw=dict(tol=1e-8, max_epochs=500, fit_intercept=False), datafits=["Quadratic", "Logistic", "Huber"], pen="L1"),
+    "ProxNewton": dict(kw=dict(tol=1e-8, max_pn_iter=50, fit_intercept=False), datafits=["Logistic", "Quadratic"], pen="L1"),
+    "FISTA": dict(kw=dict(tol=1e-8, max_iter=200), datafits=["Quadratic", "Logistic"], pen="L1"),
+    "GroupBCD": dict(kw=dict(tol=1e-8, max_iter=100, fit_intercept=False), datafits=["QuadraticGroup", "LogisticGroup"], pen="WeightedGroupL2"),
+    "GramCD": dict(kw=dict(tol=1e-8), datafits=[None], pen="L1"),
+}
+
+
+def solver_play(sname, history):
+    """ops: ('solve', datafit name, data key) | ('scale', data key): X[key] *= 2 in place (the user owns X)."""
+    import warnings
+    from mc import build
+    from mc.core import derive_seed
+    cfg = SOLVER_REUSE[sname]
+    solver = build.solver(dict(name=sname, kw=cfg["kw"]))
+    data = {"A": np.asfortranarray(A.G_TALL.copy()), "B": np.asfortranarray(A.G_SQ.copy())}
+    scales = {"A": 0, "B": 0}
+    out = []
+    for op in history:
+        if op[0] == "scale":
+            data[op[1]] *= 2.0
+            scales[op[1]] += 1
+            out.append(dict(op=op, kind="scale"))
+            continue
+        _, dn, key = op
+        X = data[key]
+        kind = R.KIND[dn]
+        y = R.targets(kind, A.G_TALL if key == "A" else A.G_SQ, "quick")[0][1]
+        lay = ([0, 2, 3], [0, 1, 2]) if key == "A" else ([0, 2, 4], [0, 2, 1, 3])
+        dspec = None if dn is None else (dict(name=dn, grp_ptr=lay[0], grp_indices=lay[1]) if "Group" in dn else
+                                         (dict(name=dn, delta=1.0) if dn == "Huber" else dict(name=dn)))
+        pspec = dict(name="L1", alpha=0.05, positive=False) if cfg["pen"] == "L1" else \
+            dict(name="WeightedGroupL2", alpha=0.05, weights=[1.0, 2.0], grp_ptr=lay[0], grp_indices=lay[1], positive=False)
+        before = X.tobytes()
+        rec = dict(op=op, kind="solve", key=f"{sname}|{dn}|{key}|x{scales[key]}")
+        try:
+            with warnings.catch_warnings():
+                warnings.simplefilter("ignore")
+                d = build.datafit(dspec)
+                if d is not None and hasattr(d, "initialize"):
+                    d.initialize(X, y)
+                build.seed_numba(derive_seed("c18s", sname, dn, key))
+                w, hist, sc = solver.solve(X, y, d, build.penalty(pspec))
+            rec.update(status="ok", w=np.asarray(w, dtype=float).tolist(), stop=float(sc), n=len(hist))
+        except Exception as e:
+            rec.update(status="exc", exc=type(e).__name__ + ": " + str(e)[:100])
+        rec["inputs_untouched"] = before == X.tobytes()
+        out.append(rec)
+    return out
+
+
+def run_solver_bfs(task, ctx):
+    sname = task["solver"]
+    cfg = SOLVER_REUSE[sname]
+    ops = [("solve", dn, k) for dn in cfg["datafits"] for k in ("A", "B")] + [("scale", "A"), ("scale", "B")]
+    depth = 3 if ctx.tier == "quick" else 4
+    table = {}
+    n = 0
+    for d in range(1, depth + 1):
+        for hist in itertools.product(ops, repeat=d):
+            if hist[-1][0] != "solve":
+                continue
+            rec = solver_play(sname, hist)[-1]
+            n += 1
+            ctx.transitions += 1
+            params = dict(op="solver_hist", solver=sname, history=[list(o) for o in hist])
+            if not rec["inputs_untouched"]:
+                ctx.violation(f"solver:{sname}.solve", "input_modified", params, "bytes of X changed", "unchanged", where=dict(solver=sname))
+            val = json.dumps({k: rec.get(k) for k in ("status", "w", "stop", "n")}, sort_keys=True)
+            first = table.setdefault(rec["key"], (val, params))
+            ctx.obs(rec.get("w"), rec.get("exc"), nontrivial=rec["status"] == "ok")
+            ctx.count("solver_histories")
+            if first[0] != val:
+                ctx.violation(f"solver:{sname}.solve", "result_depends_on_history", dict(params, other=first[1]["history"]),
+                              json.loads(val), json.loads(first[0]), where=dict(solver=sname))
+    ctx.states += len(table)
+    ctx.sample(dict(op="solver_bfs", solver=sname, ops=[list(o) for o in ops], depth=depth))
+
+
 def run(task, ctx):
+    if task["op"] == "solver_bfs":
+        return run_solver_bfs(task, ctx)
     g = task["group"]
     if task["op"] == "ref":
         hist = [tuple(o) for o in task["hist"]]
@@ -289,6 +374,19 @@ def post(agg, ctx):
 
 
 def replay(params):
+    if params["op"] == "solver_hist":
+        hist = [tuple(o) for o in params["history"]]
+        rec = solver_play(params["solver"], hist)[-1]
+        # same final solve on a fresh solver with the same data content
+        fresh = solver_play(params["solver"], [h for h in hist[:-1] if h[0] == "scale"] + [hist[-1]])[-1]
+        kinds = []
+        if not rec["inputs_untouched"]:
+            kinds.append("input_modified")
+        if json.dumps({k: rec.get(k) for k in ("status", "w", "stop", "n")}, sort_keys=True) != \
+                json.dumps({k: fresh.get(k) for k in ("status", "w", "stop", "n")}, sort_keys=True):
+            kinds.append("result_depends_on_history")
+        return dict(violated=bool(kinds), kinds=kinds, last={k: rec.get(k) for k in ("status", "w", "exc")},
+                    fresh={k: fresh.get(k) for k in ("status", "w", "exc")})
     g = params["group"]
     hist = [tuple(o) for o in params["history"]]
     outcomes, _ = play(g, hist)
@@ -312,4 +410,6 @@ def describe(tier, agg):
             "deduplicated on (params, fitted attributes); after every operation: input bytes unchanged, result identical to the result "
             "of the same (E params, D) under every other history and to a single fit in a fresh worker process; distinct = distinct "
             "successful fit results")
-    return rule, {"reference_fits": 30, "compared_with_fresh_process": 30}
+    rule += ("; plus persistent *solver* objects (AndersonCD, ProxNewton, FISTA, GroupBCD, GramCD) reused across all sequences (depth 3/4) of "
+             "solves with different datafits on two persistent X objects that the user may rescale in place between calls")
+    return rule, {"reference_fits": 30, "compared_with_fresh_process": 30, "solver_histories": 300}
